@@ -177,6 +177,13 @@ class FromDAOState:
     Dictionary that marks objects as currently being processed by the `from_dao` method.
     """
 
+    deferred_fixes: Dict[int, List[Tuple[Any, str, Any]]] = field(default_factory=dict)
+    """
+    References that were patched while their target was still being built, keyed by the id of the target DAO.
+    An alternatively mapped target is replaced by the object it describes only when it is finished, so these
+    references are patched once more at that point.
+    """
+
     def has(self, dao_obj: Any) -> bool:
         return id(dao_obj) in self.memo
 
@@ -259,9 +266,29 @@ class FromDAOState:
                 fixed_list = []
                 for v in value:
                     fixed_list.append(self.memo.get(id(v)))
+                    self._defer_fix_if_in_progress(v, result, key, value)
                 setattr(result, key, fixed_list)
             else:
                 setattr(result, key, self.memo.get(id(value)))
+                self._defer_fix_if_in_progress(value, result, key, value)
+
+    def _defer_fix_if_in_progress(
+        self, target_dao: Any, holder: Any, key: str, value: Any
+    ) -> None:
+        """
+        Remember that `holder.key` refers to the object of `target_dao`, which is still being built.
+        """
+        if id(target_dao) in self.in_progress:
+            self.deferred_fixes.setdefault(id(target_dao), []).append(
+                (holder, key, value)
+            )
+
+    def apply_deferred_fixes(self, dao_obj: Any) -> None:
+        """
+        Patch the references that were handed a placeholder for the now finished object of `dao_obj`.
+        """
+        for holder, key, value in self.deferred_fixes.pop(id(dao_obj), []):
+            self.apply_circular_fixes(holder, {key: value})
 
 
 class HasGeneric(Generic[T]):
@@ -695,6 +722,10 @@ class DataAccessObject(HasGeneric[T]):
         if isinstance(result, AlternativeMapping):
             result = result.create_from_dao()
             state.memo[id(self)] = result
+            del state.in_progress[id(self)]
+            # objects built inside a cycle through this object still hold the mapping instance
+            state.apply_deferred_fixes(self)
+            return result
 
         del state.in_progress[id(self)]
         return result
